@@ -59,8 +59,8 @@ def raw_run(impl, scn, stream, chunking=None):
             except subprocess.TimeoutExpired: p.kill(); rc = -9
         lines = out.decode('latin1').split("\n")
         if lines and lines[-1] == "": lines.pop()
-        # drop the start-up banner: V, a, A*, O
-        i = 0
+        # drop what precedes the version banner (start-up diagnostics), then the start-up banner itself: V, a, A*, O
+        i = next((i_ for i_, l_ in enumerate(lines) if l_.startswith("V ")), 0)
         while i < len(lines) and (lines[i].startswith("V ") or lines[i] == "a" or lines[i].startswith("A ") or lines[i].startswith("O ")): i += 1
         return rc, lines[i:], err.decode('latin1', errors='replace')
     finally:
